@@ -80,7 +80,11 @@ def make_interp(ctx, store):
             from ..interp import RaiseSig as RS
             from ..values import ExcVal
             raise RS(ExcVal("FileNotFoundError"))
-        return Record(None, dict(store.files[filename]), label="NpzFile")
+        rec = Record(None, dict(store.files[filename]), label="NpzFile")
+        rec.native_methods["keys"] = Native("keys", lambda I2: list(store.files[filename]))
+        rec.native_methods["close"] = Native("close", lambda I2: None)
+        rec.attrs_files = list(store.files[filename])
+        return rec
     ext = {"numpy.savez": Native("savez", savez), "zipfile.ZipFile": Native("ZipFile", zipfile), "io.BytesIO": Native("BytesIO", bytesio),
            "numpy.save": Native("save", npsave), "numpy.load": Native("load", npload)}
     I = Interp(ctx.program, externals=ext, stubs={"pydrex.io.resolve_path": Native("resolve_path", resolve_path)})
@@ -119,7 +123,7 @@ def run(ctx):
     floc = ctx.program.loc(mmod, ctx.program.require_method("pydrex.minerals.Mineral", "from_file")) + " (from_file)"
     cases = [("olivine", "olivine_A", "matrix_dislocation"), ("enstatite", "enstatite_AB", "frictional_yielding"), ("olivine", "olivine_E", "max_viscosity")]
     # ---- whole-file round trip and postfix round trips in one archive, loaded in reverse order
-    for postfixes in ((None,), ("a",), ("p1", "p2", "p3"), ("7", "x_y")):
+    for postfixes in ((None,), ("a",), ("p1", "p2", "p3"), ("7", "x_y"), ("1", "run_1", "2", "2_1"), ("run_1", "1"), ("a_b", "b", "a")):
         store = Store()
         I = make_interp(ctx, store)
         fname = "/data/out.npz"
